@@ -36,6 +36,7 @@ SLICE_PRE = {
     "from_digit": "radix <= 36",
     "split_first_chunk": None,
 }
+STRING_PRE = {"truncate": "new_len on a char boundary", "insert_str": "idx on a char boundary", "replace_range": "range on char boundaries"}
 SLICE_PRE_OWNERS = ("slice::<impl [T]>", "vec::Vec::<T, A>", "vec::Vec::<T>", "string::String", "str::<impl str>", "cell::RefCell::<T>", "iter::Iterator", "iter::traits::iterator::Iterator", "collections::VecDeque", "char::methods::<impl char>")
 ALLOC_FNS = {"from_elem": 1, "with_capacity": 0, "with_capacity_in": 0, "reserve": 1, "reserve_exact": 1, "resize": 1, "resize_with": 1, "repeat": 1}
 LEAK_RE = re.compile(r"(mem::forget|boxed::Box::<.*>::leak|mem::ManuallyDrop::<.*>::new|::into_raw|::into_raw_parts)$")
@@ -97,6 +98,9 @@ def classify_call(t):
         return "index", " ".join(ga[:2]) if ga else short_callee(res)
     last = res.split("::")[-1]
     if last in SLICE_PRE and any(o in res for o in SLICE_PRE_OWNERS):
+        return "slice-pre", short_callee(res)
+    if last in STRING_PRE and "string::String" in res:
+        # byte positions in a String must lie on a char boundary (and inside it): `truncate(20)` on text read from a file
         return "slice-pre", short_callee(res)
     if last in ALLOC_FNS and ("vec::" in res or "string::String" in res or "slice::" in res or "str::" in res or "collections::" in res):
         return "alloc", short_callee(res)
